@@ -201,8 +201,12 @@ class Ctx:
         line = p.stdout.readline()
         if not line:
             self._kill_proc(hashseed)
-            return {'error': 'ProcessDied', 'message': 'simulated process died'}
-        return json.loads(line)
+            raise RuntimeError('simulated process (hashseed %s) died' % hashseed)
+        r = json.loads(line)
+        if r.get('error') == 'ChildDied':
+            # the job process was killed by its wall-clock guard or crashed: a harness problem, never a verdict
+            raise RuntimeError('simulated job died without a result (wall-clock guard or crash): %s' % json.dumps(job)[:300])
+        return r
 
     def _kill_proc(self, hashseed):
         p = self._procs.pop(hashseed, None)
